@@ -1,7 +1,7 @@
 (* Property C07 — NFT nonces are unique and strictly increasing per token.
    Only statements, each closed by [exact] of a lemma of LedgerProofs/C07_Exec.v (one call), C07_Emit.v (emitted
-   messages), C07_World.v (histories) and C07_Histories.v (checker, re-delivery, concrete histories), their
-   assumptions, pins and non-vacuity examples.
+   messages), C07_World.v (histories, at-most-once delivery), C07_Redelivery.v (histories with repeated deliveries) and
+   C07_Histories.v (checkers, re-delivery, concrete histories), their assumptions, pins and non-vacuity examples.
 
    Reading guide.
    ONE CALL.  [E : env] is arbitrary with [codec_ok (cdc E)]; [counter_at s a tok] is the big-endian counter under
@@ -27,8 +27,14 @@
          contract and whose recipient currently holds the create role, or (b) by the consuming delivery or the
          refund of an in-flight message — never by ORedeliver, never as an OCall by anybody else (the destination
          branch of the function has no authorisation of its own: C07_forged_handover_refuted);
-     (4) every OCall's recipient-presence flag is truthful, i_dst = (recipient's shard = executing shard) — which a
-         node guarantees by construction (C07_lying_presence_flag_refuted shows what a lying flag allows).
+     (4) the recipient-presence flag of every OCall of one of the three TRANSFER functions is truthful,
+         i_dst = (recipient's shard = executing shard) — which a node guarantees by construction
+         (C07_lying_presence_flag_refuted shows what a lying flag allows: a forged hand-over message).
+   THE PERMISSIVE DISCIPLINE ([disciplined_r], C07_discipline_r_unfolded) replaces (3b) by: a hand-over message for tok
+   may be delivered by ODeliver, ORedeliver or ORefund any number of times, provided each such delivery is either the
+   first effective one (nobody holds the create role and the message is the latest hand-over message in flight) or
+   finds the carried counter and the create role in place at its destination.  (3b) is the special case
+   (C07_disciplined_r_of_disciplined); what it still excludes is exactly F9.
    [nowrap c tok w ops]: every attempted ESDTNFTCreate for tok finds counter + 1 < 2^64.
    [init_ok]: the start world has the configured number of shards, nobody holds the create role for tok and no
    ESDTNFTCreateRoleTransfer message for tok is in flight (e.g. the empty world: C07_init_ok_empty).
@@ -40,7 +46,7 @@ From EV Require Import Base.Bytes Base.Store Base.Monad gen.Consts Codec.Types C
   Ledger.Types Ledger.Env Ledger.Funcs Ledger.Transfers Ledger.World
   LedgerProofs.Defs LedgerProofs.EnvSpec LedgerProofs.WorldDefs LedgerProofs.WorldSpec
   LedgerProofs.Spec_Transfers_Base LedgerProofs.Spec_System
-  LedgerProofs.C07_Exec LedgerProofs.C07_Emit LedgerProofs.C07_World LedgerProofs.C07_Histories.
+  LedgerProofs.C07_Exec LedgerProofs.C07_Emit LedgerProofs.C07_World LedgerProofs.C07_Redelivery LedgerProofs.C07_Histories.
 Import ListNotations.
 
 Local Open Scope N_scope.
@@ -163,9 +169,10 @@ Theorem C07_set_role_effect : forall (E : env), codec_ok (cdc E) -> forall (set 
       else delete_roles (roles_at E s (i_rcpt i) (argn i 0)) (tl (i_args i))).
 Proof. exact set_role_effect. Qed.
 (* no other function puts a message NAMED ESDTNFTCreateRoleTransfer in flight, provided the recipient-presence flag
-   of the input is truthful *)
+   of the input of a transfer function is truthful ([is_transfer_fn]: ESDTTransfer, ESDTNFTTransfer, MultiESDTNFTTransfer) *)
 Theorem C07_collect_not_handover : forall (c : wcfg) sh f i id o s s',
-  exec (env_at c sh) f i s = (Ok o, s') -> i_dst i = (wc_shard_of c (i_rcpt i) =? sh) ->
+  exec (env_at c sh) f i s = (Ok o, s') ->
+  (is_transfer_fn f = true -> i_dst i = (wc_shard_of c (i_rcpt i) =? sh)) ->
   f <> C.BuiltInFunctionESDTNFTCreateRoleTransfer ->
   forall m, In m (collect c sh f i id o) -> m_fn m <> C.BuiltInFunctionESDTNFTCreateRoleTransfer.
 Proof. exact collect_not_handover. Qed.
@@ -192,7 +199,9 @@ Example C07_op_exec_unfolded : forall (c : wcfg) w sh fn i id gas,
 Proof. intros. repeat split. Qed.
 Example C07_discipline_unfolded : forall (c : wcfg) tok g w op ops,
   (step_ok c tok g w op <->
-     (match op with OCall sh _ i => i_dst i = (wc_shard_of c (i_rcpt i) =? sh) | _ => True end)
+     (match op with
+      | OCall sh fn i => is_transfer_fn fn = true -> i_dst i = (wc_shard_of c (i_rcpt i) =? sh)
+      | _ => True end)
      /\ match op_exec c w op with
         | None => True
         | Some (sh, fn, i) =>
@@ -333,7 +342,67 @@ Theorem C07_redelivery_idempotent : forall (c : wcfg), codec_ok (wc_cdc c) -> fo
   /\ (forall t' sh' a, wroles c w' t' sh' a = wroles c w t' sh' a).
 Proof. exact redelivery_idempotent. Qed.
 
-(* the discipline and the no-wrap condition are decidable along a concrete history *)
+(* ================================================================== *)
+(* histories with repeated deliveries of hand-over messages             *)
+(* ================================================================== *)
+Example C07_discipline_r_unfolded : forall (c : wcfg) tok g w op ops,
+  (step_ok_r c tok g w op <->
+     (match op with
+      | OCall sh fn i => is_transfer_fn fn = true -> i_dst i = (wc_shard_of c (i_rcpt i) =? sh)
+      | _ => True end)
+     /\ match op_exec c w op with
+        | None => True
+        | Some (sh, fn, i) =>
+          ((fn = C.BuiltInFunctionSetESDTRole /\ argn i 0 = tok /\ In C.ESDTRoleNFTCreate (tl (i_args i))) ->
+             g = false /\ cnt C.ESDTRoleNFTCreate (tl (i_args i)) = 1%nat)
+          /\ ~ (fn = C.BuiltInFunctionUnSetESDTRole /\ argn i 0 = tok /\ In C.ESDTRoleNFTCreate (tl (i_args i)))
+          /\ ((fn = C.BuiltInFunctionESDTNFTCreateRoleTransfer /\ argn i 0 = tok) ->
+                match op with
+                | OCall _ _ _ => i_caller i = SC /\ holder c w tok sh (i_rcpt i)
+                | ODeliver id _ | ORedeliver id _ | ORefund id _ =>
+                  ((forall sh' a, ~ holder c w tok sh' a)
+                   /\ forall m, find_msg (inflight w) id = Some m ->
+                                exists l, filter (is_hmsg tok) (inflight w) = l ++ [m])
+                  \/ (holder c w tok sh (i_rcpt i) /\ wcounter w tok sh (i_rcpt i) = bigU64 (argn i 1))
+                end)
+        end)
+  /\ (disciplined_r c tok g w (op :: ops) <->
+        step_ok_r c tok g w op /\ disciplined_r c tok (g || grant_attempt c tok w op) (wstep c w op) ops)
+  /\ (disciplined_r c tok g w [] <-> True).
+Proof. intros. split; [reflexivity|]. split; reflexivity. Qed.
+(* the invariant of this discipline: stale hand-over messages may stay in flight; when nobody holds the role the LAST
+   hand-over message in flight carries a counter >= every issued nonce *)
+Example C07_RInv_unfolded : forall (c : wcfg) tok g w L, RInv c tok g w L ->
+  (forall sh a, (ncreate c w tok sh a <= 1)%nat)
+  /\ (forall sh a sh' a', holder c w tok sh a -> holder c w tok sh' a' -> sh = sh' /\ a = a')
+  /\ (forall sh a, holder c w tok sh a -> Forall (fun n => n <= wcounter w tok sh a) L)
+  /\ Forall (fun m => exists n, n < two64 /\ m_args m = [tok; u64_bytes n]) (filter (is_hmsg tok) (inflight w))
+  /\ ((forall sh a, ~ holder c w tok sh a) -> forall l m n,
+        filter (is_hmsg tok) (inflight w) = l ++ [m] -> m_args m = [tok; u64_bytes n] -> Forall (fun k => k <= n) L)
+  /\ StronglySorted N.lt L.
+Proof.
+  intros c tok g w L H. destruct H as [H1 H2 H3 H4 H5 H6 H7 H8].
+  exact (conj H2 (conj H3 (conj H4 (conj H5 (conj H6 H8))))).
+Qed.
+Theorem C07_RInv_step : forall (c : wcfg), codec_ok (wc_cdc c) -> forall tok g w op L,
+  RInv c tok g w L -> step_ok_r c tok g w op -> step_nowrap c tok w op ->
+  RInv c tok (g || grant_attempt c tok w op) (wstep c w op) (L ++ issued tok (opt_list (step_log c w op))).
+Proof. exact RInv_step. Qed.
+Theorem C07_nonces_unique_histories_redelivery : forall (c : wcfg), codec_ok (wc_cdc c) -> forall tok w0 ops,
+  init_ok c tok w0 -> disciplined_r c tok false w0 ops -> nowrap c tok w0 ops ->
+  let L := issued tok (snd (wrun_log c w0 ops)) in
+  NoDup L /\ StronglySorted N.lt L
+  /\ (forall sh a, holder c (wrun c w0 ops) tok sh a -> Forall (fun n => n <= wcounter (wrun c w0 ops) tok sh a) L).
+Proof. exact nonces_unique_histories_redelivery. Qed.
+(* the at-most-once discipline is a special case of the permissive one *)
+Theorem C07_disciplined_r_of_disciplined : forall (c : wcfg), codec_ok (wc_cdc c) -> forall tok ops g w L,
+  CInv c tok g w L -> disciplined c tok g w ops -> nowrap c tok w ops -> disciplined_r c tok g w ops.
+Proof. exact disciplined_r_of_disciplined. Qed.
+
+(* the disciplines and the no-wrap condition are decidable along a concrete history *)
+Theorem C07_disciplinedb_r_ok : forall (c : wcfg) tok ops g w,
+  disciplinedb_r c tok g w ops = true -> disciplined_r c tok g w ops.
+Proof. exact disciplinedb_r_ok. Qed.
 Theorem C07_disciplinedb_ok : forall (c : wcfg) tok ops g w,
   disciplinedb c tok g w ops = true -> disciplined c tok g w ops.
 Proof. exact disciplinedb_ok. Qed.
@@ -368,6 +437,28 @@ Example C07_nonces_unique_nonvacuous :
   init_ok c7_cfg c7_tok c7_w0 /\ disciplined c7_cfg c7_tok false c7_w0 c7_good /\ nowrap c7_cfg c7_tok c7_w0 c7_good
   /\ L = [1; 2; 3; 4; 5] /\ NoDup L /\ StronglySorted N.lt L.
 Proof. exact nonces_unique_nonvacuous. Qed.
+
+(* a history with repeated deliveries accepted by the permissive discipline only *)
+Example C07_again_history : c7_again =
+  [ c7_set_role 0 c7_alice c7_tok; c7_create 0 c7_alice c7_tok; c7_create 0 c7_alice c7_tok;
+    c7_handover 0 c7_alice c7_tok c7_bob;
+    ORedeliver 0 1000; ORedeliver 0 1000; c7_create 1 c7_bob c7_tok;
+    c7_handover 1 c7_bob c7_tok c7_carol; ODeliver 1 1000; c7_create 0 c7_carol c7_tok ].
+Proof. reflexivity. Qed.
+Example C07_nonces_unique_redelivery_nonvacuous :
+  let L := issued c7_tok (snd (wrun_log c7_cfg c7_w0 c7_again)) in
+  init_ok c7_cfg c7_tok c7_w0 /\ disciplined_r c7_cfg c7_tok false c7_w0 c7_again /\ nowrap c7_cfg c7_tok c7_w0 c7_again
+  /\ disciplinedb c7_cfg c7_tok false c7_w0 c7_again = false
+  /\ length (snd (wrun_log c7_cfg c7_w0 c7_again)) = 10%nat
+  /\ length (inflight (wrun c7_cfg c7_w0 c7_again)) = 1%nat
+  /\ L = [1; 2; 3; 4] /\ NoDup L /\ StronglySorted N.lt L.
+Proof. exact nonces_unique_redelivery_nonvacuous. Qed.
+Example C07_f9_rejected_by_permissive_discipline :
+  disciplinedb_r c7_cfg c7_tok false c7_w0 c7_f9 = false
+  /\ disciplinedb_r c7_cfg c7_tok false c7_w0 (firstn 6 c7_f9) = true
+  /\ disciplinedb_r c7_cfg c7_tok false c7_w0 c7_f9b = false
+  /\ disciplinedb_r c7_cfg c7_tok false c7_w0 c7_good = true.
+Proof. exact f9_rejected_by_permissive_discipline. Qed.
 
 (* ---- F9 (known finding): re-delivery after a create regresses the counter ---- *)
 Example C07_f9_history : c7_f9 =
@@ -426,12 +517,33 @@ Print Assumptions C07_CInv_run.
 Print Assumptions C07_counter_ge_issued.
 Print Assumptions C07_nonces_unique_histories.
 Print Assumptions C07_redelivery_idempotent.
+Print Assumptions C07_RInv_step.
+Print Assumptions C07_nonces_unique_histories_redelivery.
+Print Assumptions C07_disciplined_r_of_disciplined.
+Print Assumptions C07_disciplinedb_r_ok.
 Print Assumptions C07_disciplinedb_ok.
 Print Assumptions C07_nowrapb_ok.
 Print Assumptions C07_init_ok_empty.
 Print Assumptions C07_nonces_unique_nonvacuous.
+Print Assumptions C07_nonces_unique_redelivery_nonvacuous.
+Print Assumptions C07_f9_rejected_by_permissive_discipline.
 Print Assumptions C07_nonces_unique_redelivery_refuted.
 Print Assumptions C07_two_holders_redelivery_refuted.
 Print Assumptions C07_forged_handover_refuted.
 Print Assumptions C07_lying_presence_flag_refuted.
 Print Assumptions C07_redelivery_idempotent_nonvacuous.
+Print Assumptions C07_pinned_constants.
+Print Assumptions C07_observables_unfolded.
+Print Assumptions C07_writers_unfolded.
+Print Assumptions C07_op_exec_unfolded.
+Print Assumptions C07_discipline_unfolded.
+Print Assumptions C07_world_observables_unfolded.
+Print Assumptions C07_wrun_log_unfolded.
+Print Assumptions C07_CInv_unfolded.
+Print Assumptions C07_discipline_r_unfolded.
+Print Assumptions C07_RInv_unfolded.
+Print Assumptions C07_concrete_config.
+Print Assumptions C07_good_history.
+Print Assumptions C07_good_successes.
+Print Assumptions C07_again_history.
+Print Assumptions C07_f9_history.
